@@ -316,6 +316,14 @@ func (x *Exec) builtin(name string, call *ast.CallExpr, env *Env) []Term {
 			so := x.W.SortOf(t)
 			r := x.W.MkSeq(so, ConstArray(ArraySort(SInt, x.W.SortOf(u.Elem())), x.zero(u.Elem())), IntLit(0), n)
 			r.GoT = t
+			if b, ok := u.Elem().Underlying().(*types.Basic); ok && b.Kind() == types.Bool && !x.termMode && x.noFacts == 0 && x.unroll == 0 {
+				// an all-false mask: mask sums over it equal the plain sums with the same summands (fold induction)
+				z := x.named("mask0", r)
+				z.GoT = t
+				x.W.pendingZeroMask = append(x.W.pendingZeroMask, z)
+				x.zeroMaskFacts()
+				return []Term{z}
+			}
 			return []Term{r}
 		case *types.Map:
 			if len(call.Args) > 1 {
